@@ -8,6 +8,7 @@ RULE = ('pairs drawn from the stated envelope: detached (>= half the larger side
         'offsets, tilts up to 60 deg, random rigid motions and vertex rotations; rectangles sharing an edge at dihedral angles 45-170 deg and '
         'sharing a vertex at a right angle, side ratios <= 2; each compared with an independent graded Gauss-Legendre contour reference '
         '(validated against the closed forms of sparrowpy.testing.exact_ff_solutions); tolerances exactly those of the statement')
+RULE = RULE + '; plus small perpendicular rectangles canted by 1-3 degrees, 15-30 m from the origin'
 ASSUMPTIONS = ['PARTIAL (the main clause): "within 1 % / 3 % / 8 % / 5 % of the exact four-fold integral over a continuous envelope" is an analytic error bound that this proof technique cannot deliver here; the envelope is MEASURED by sampling and reported as measured',
                'the reference integrator is harness code (trusted, validated on closed forms each run)',
                'known finding D12 (obtuse shared-edge angles) is listed in known_findings.json']
